@@ -229,6 +229,8 @@ def enumerate_paths(fv, rend=None, max_paths=50000, loop_visits=2):
                         if q2 is not None and not q2.get("p"):
                             cur = q2["l"]
                             continue
+                        if multi:
+                            e_path = rend.rvalue(st2["rv"], rend.depth)     # a copy of a field / projected place
                         break
                     if multi:
                         e_path = rend.call_expr(st2, rend.depth, bi2) if si2 == "t" else rend.rvalue(st2["rv"], rend.depth)
